@@ -625,10 +625,52 @@ def r6(ctx: Ctx) -> RuleReport:
     return rep
 
 
+def _rename(e: ast.AST, old: str, new: str) -> ast.AST:
+    import copy
+    e = copy.deepcopy(e)
+    for x in ast.walk(e):
+        if isinstance(x, ast.Name) and x.id == old:
+            x.id = new
+    return e
+
+
 def _classify_splitter(ctx, fi, val: ast.AST, p: str):
     """(True/False/None, message)"""
+    # a module-level helper that returns the split text: read its return expression with the argument put in
+    if isinstance(val, ast.Call) and isinstance(val.func, ast.Name) and len(val.args) == 1 and not val.keywords and isinstance(val.args[0], ast.Name) \
+            and val.args[0].id == p and val.func.id in fi.module.functions:
+        h = fi.module.functions[val.func.id]
+        rets = [n for n in walk_local(h.node) if isinstance(n, ast.Return) and n.value is not None]
+        if len(rets) == 1 and len(h.positional) == 1:
+            from ..resolve import expand
+            e = expand(ctx, h, rets[0].value, rets[0])
+            e = _rename(e, h.positional[0], p)
+            return _classify_splitter(ctx, h, e, p)
+        return None, ''
     if isinstance(val, ast.Call) and isinstance(val.func, ast.Attribute):
         recv, attr = val.func.value, val.func.attr
+        # s.replace('\r\n', '\n').replace('\r', '\n').split('\n')
+        if attr == 'split' and len(val.args) == 1 and not val.keywords and try_fold(val.args[0]) == (True, '\n'):
+            reps, x = [], recv
+            while isinstance(x, ast.Call) and isinstance(x.func, ast.Attribute) and x.func.attr == 'replace' and len(x.args) == 2 and not x.keywords:
+                oa, a_ = try_fold(x.args[0])
+                ob, b_ = try_fold(x.args[1])
+                if not (oa and ob):
+                    return None, ''
+                reps.insert(0, (a_, b_))
+                x = x.func.value
+            if reps and isinstance(x, ast.Name) and x.id == p:
+                if reps == [('\r\n', '\n'), ('\r', '\n')]:
+                    return True, 'CRLF, then CR, rewritten to LF and the text split at LF: splits exactly at LF, CRLF, CR'
+                if all(b_ == '\n' for _, b_ in reps):
+                    olds = [a_ for a_, _ in reps]
+                    if '\r' in olds and '\r\n' in olds and olds.index('\r') < olds.index('\r\n'):
+                        return False, 'CR is rewritten to LF before CRLF is: CRLF becomes two line ends'
+                    if set(olds) < {'\r\n', '\r'}:
+                        missing = sorted({'\r\n', '\r'} - set(olds))
+                        if missing == ['\r'] or missing == ['\r\n', '\r'] or missing == ['\r', '\r\n']:
+                            return False, f'lines are not ended at a bare CR'
+                return None, ''
         if attr == 'splitlines' and isinstance(recv, ast.Name) and recv.id == p:
             return False, ('str.splitlines() also ends lines at ' +
                            ', '.join(f'U+{ord(c):04X}' for c in SPLITLINES_EXTRA) +
